@@ -771,7 +771,8 @@ def _grammar_check(prop, tier, seed, grammars, rule, nvars, leaf_quick=40, sim_q
                 if fix_world:
                     W = fix_world(copy.deepcopy(W))
                 q = mk_query(p, doms)
-                qc.add(W, [q], events(q) if events else [drain_ev()])
+                # evaluated twice: the second evaluation is served by the operator caches
+                qc.add(W, [q], events(q) if events else [drain_ev(), drain_ev()])
     if extra:
         extra(qc, rng, quick)
     qc.execute(nontrivial or _nontrivial_rows)
@@ -813,7 +814,7 @@ def check_C16(tier, seed):
 
 def check_C17(tier, seed):
     def events(q):
-        return [drain_ev()]
+        return [drain_ev(), drain_ev()]
 
     def nontrivial(t):
         ev = t["evs"][0]
@@ -843,7 +844,7 @@ def check_C17(tier, seed):
 
 def check_C15(tier, seed):
     def events(q):
-        return [drain_ev()]
+        return [drain_ev(), drain_ev()]
     return _grammar_check(
         "C15", tier, seed, ["G6"],
         "sub-queries an(entity(x, c)), an(entity(y, c)), an(set_of([x, y], c)) used as conditions of an enclosing query "
